@@ -88,6 +88,8 @@ def _make_scripted(pulp):
                     v.varValue = None
                 elif varmode == "half":
                     v.varValue = 1 if k % 2 == 0 else None
+                elif varmode == "zero":  # a solver stopped before its first solution leaves every variable at 0
+                    v.varValue = 0
                 else:
                     v.varValue = 1
             lp.assignStatus(status)
